@@ -1755,9 +1755,19 @@ func (self *Node) toGenericArrayUseNode() ([]Node, error) {
 	}
 
 	var s = (*linkedNodes)(self.p)
-	var out = make([]Node, nb)
-	s.ToSlice(out)
+	if s.Len() == nb {
+		var out = make([]Node, nb)
+		s.ToSlice(out)
+		return out, nil
+	}
 
+	/* some children got unset, skip them */
+	var out = make([]Node, 0, nb)
+	for i := 0; i < s.Len(); i++ {
+		if v := s.At(i); v.Exists() {
+			out = append(out, *v)
+		}
+	}
 	return out, nil
 }
 
@@ -1811,9 +1821,17 @@ func (self *Node) toGenericObjectUseNode() (map[string]Node, error) {
 
 	var s = (*linkedPairs)(self.p)
 	var out = make(map[string]Node, nb)
-	s.ToMap(out)
+	if s.Len() == nb {
+		s.ToMap(out)
+		return out, nil
+	}
 
-	/* all done */
+	/* some pairs got unset, skip them */
+	for i := 0; i < s.Len(); i++ {
+		if p := s.At(i); p.Value.Exists() {
+			out[p.Key] = p.Value
+		}
+	}
 	return out, nil
 }
 
